@@ -105,7 +105,7 @@ def run(ctx):
     repo = ctx.repo
     ef = effects(repo)
     ctx.decided = ['C17.1 single emitter of escape sequences, one switch', 'C17.2 shape of color()', 'C17.3 every emitted sequence is strippable by no_color',
-                   'C17.4 no layout computed from coloured text', 'C17.5 pasted coloured text is stripped before it is tokenised']
+                   'C17.4 no layout computed from coloured text', 'C17.5 pasted coloured text is stripped before it is tokenised', 'C17.6 coloured text is never kept (no memoised or stored rendering)']
     ctx.undecided = ['escape sequences that arrive in the input and are passed through']
     um = repo.modules['core.util']
     f_color = repo.func('util.color')
@@ -481,6 +481,66 @@ def run(ctx):
     # before it - the turn rule of the prompt loop (C10.7), evaluated here
     from .c10 import check_prompt_turns
     check_prompt_turns(ctx, 'C17.5')
+    # ---- C17.6 coloured text is never kept -------------------------------------------------------------------------
+    # color() consults the switch at the moment it is called; text that went through it is only right for the switch setting of that moment.
+    # A function that can return coloured text (color() in its call closure) must therefore not be memoised, and must not park such text in
+    # an attribute, a module-level name or a module-level table: the next rendering under the other setting would reuse it.
+    from .common import memoised_funcs as _memo17
+    cg17 = repo.callgraph()
+    colouring = set()
+    def _colour_calls(g, e, depth=0):
+        for c in ast.walk(e):
+            if isinstance(c, ast.Call):
+                s_ = cg17.site_of(g, c)
+                if s_ is not None and (cg17.targets(s_) & colouring):
+                    return c
+            if isinstance(c, ast.Name) and isinstance(c.ctx, ast.Load) and depth < 3:
+                for a in g.body_nodes():
+                    if isinstance(a, ast.Assign) and any(isinstance(t, ast.Name) and t.id == c.id for t in a.targets):
+                        r = _colour_calls(g, a.value, depth + 1)
+                        if r is not None:
+                            return r
+        return None
+    # (functions that can RETURN coloured text: color() itself, and any function one of whose return values is built - directly or through its
+    #  local names - from a call of such a function; a fixed point over the resolved call sites)
+    colouring = {f_color}
+    changed17 = True
+    while changed17:
+        changed17 = False
+        for g0 in repo.all_funcs(False):
+            if g0 in colouring or g0.is_module_body:
+                continue
+            for r0 in g0.body_nodes():
+                if isinstance(r0, ast.Return) and r0.value is not None and _colour_calls(g0, r0.value) is not None:
+                    colouring.add(g0)
+                    changed17 = True
+                    break
+    for g in _memo17(repo):
+        ctx.check(g not in colouring, 'C17.6', 'coloured-text-not-kept:memoised:%s' % g.qual, g.loc(), '%s is memoised and returns no coloured text' % g.short,
+                  '%s is memoised but its result can contain escape sequences from color(): the text of the first call is reused after the colour switch changes' % g.short)
+
+    n17 = 0
+    for g in sorted(colouring - {f_color}, key=lambda x: x.qual):
+        declared_global = {nm for st in g.body_nodes() if isinstance(st, ast.Global) for nm in st.names}
+        local_names = set(g.params()) | {t.id for st in g.body_nodes() if isinstance(st, (ast.Assign, ast.AnnAssign, ast.AugAssign, ast.For))
+                                       for t in ast.walk(st.targets[0] if isinstance(st, ast.Assign) else st.target) if isinstance(t, ast.Name)}
+        for st in g.body_nodes():
+            if not isinstance(st, (ast.Assign, ast.AugAssign, ast.AnnAssign)) or getattr(st, 'value', None) is None:
+                continue
+            n17 += 1
+            for t in (st.targets if isinstance(st, ast.Assign) else [st.target]):
+                base = t
+                while isinstance(base, ast.Subscript):
+                    base = base.value
+                kept = (isinstance(base, ast.Attribute)
+                        or (isinstance(base, ast.Name) and (base.id in declared_global or (base is not t and base.id not in local_names))))
+                if not kept:
+                    continue
+                c = _colour_calls(g, st.value)
+                ctx.check(c is None, 'C17.6', 'coloured-text-not-kept:%s:%s' % (g.qual, norm(t)[:40]), g.loc(st), 'what %s stores in %s is not coloured text' % (g.short, norm(t)[:40]),
+                          '%s keeps text that went through color() (%s) in %s: it is reused by a later rendering whatever the colour switch then says'
+                          % (g.short, norm(c)[:50] if c is not None else '', norm(t)[:40]))
+    ctx.floor('C17.6', len(colouring), 10, 'functions that can return coloured text')
     return ('enumeration of escape literals and switch reads, path enumeration of color() with symbolic string pieces, abstract evaluation of all colour '
             'codes and automata inclusion in no_color\'s pattern, taint of coloured text into layout computations, sanitiser ordering on the input side. '
             'Decided: %s. Undecided: %s' % ('; '.join(ctx.decided), '; '.join(ctx.undecided)))
